@@ -327,10 +327,15 @@ def minmax_cases(chk, drv):
         nd = rng.choice([3, 4, 4])
         P = rng.choice(proc_grids(chk.n(6, 8)))
         npts = npts_for(rng, P)[:nd]
-        eta = lu.eta_grids(npts)
         lays = dict(STD4) if nd == 4 else {'v_parallel_2d': [0, 2, 1], 'mode_solve': [1, 2, 0]}
         name = rng.choice(sorted(lays))
         ord_ = lays[name]
+        empty = max(P) > 1 and rng.random() < 0.15
+        if empty:
+            # fewer points than processes along one distributed axis: some processes own nothing (the `size == 0` branch)
+            k = rng.choice([i for i in range(2) if P[i] > 1])
+            npts[ord_[k]] = P[k] - 1
+        eta = lu.eta_grids(npts)
         cplx = nd == 3 and rng.random() < 0.5
         # shifted away from zero in both directions: a wrong neutral element (0 instead of +-inf) must show
         G = rand_field(rng, npts, cplx) + rng.choice([-40.0, 0.0, 40.0])
@@ -346,6 +351,7 @@ def minmax_cases(chk, drv):
         def body():
             comm = MPI.COMM_WORLD
             h = getLayoutHandler(comm, lays, list(P), eta)
+            coords = [int(x) for x in h.mpiCoords] + [0] * (nd - 2)
             g = Grid(eta, [None] * nd, h, name, comm, dtype=(np.complex128 if cplx else float))
             L = g.getLayout(name)
             g.getAllData()[:] = lu.expected_block(G, L)
@@ -359,9 +365,12 @@ def minmax_cases(chk, drv):
             mx = g.getMax(*a)
             lmn = lmx = None
             if not cplx:
-                lmn, lmx = float(g.getMin()), float(g.getMax())
+                try:
+                    lmn, lmx = float(g.getMin()), float(g.getMax())
+                except ValueError:
+                    lmn = lmx = 'raise'
             return {'min': None if mn is None else float(mn), 'max': None if mx is None else float(mx),
-                    'lmin': lmn, 'lmax': lmx, 'coords': coords_of(L, ord_, None, None), 'rank': comm.Get_rank()}
+                    'lmin': lmn, 'lmax': lmx, 'coords': coords, 'rank': comm.Get_rank(), 'size': int(g.getAllData().size)}
         res = lu.run_ranks(int(np.prod(P)), body, policy=rng.choice(['inorder', 'reverse', 'random']), seed=it,
                            reduce_order=rng.choice(['rank', 'reverse', 'random']))
         case = {'P': list(P), 'npts': npts, 'layout': name, 'sel': sel, 'root': root, 'complex': cplx}
@@ -393,12 +402,16 @@ def minmax_cases(chk, drv):
             chk.diff('model: reduction != global extremum (contradicts min_max_of_blocks)', case, mo)
         if not cplx:
             for ri, o in enumerate(vals):
-                if fr(mo['lmin'][ri]) != fr(o['lmin']) or fr(mo['lmax'][ri]) != fr(o['lmax']):
-                    chk.diff('local getMin()/getMax()', dict(case, rank=ri), [mo['lmin'][ri], mo['lmax'][ri]], [o['lmin'], o['lmax']])
-            gl = [min(o['lmin'] for o in vals), max(o['lmax'] for o in vals)]
+                ml, mx_ = mo['lmin'][ri], mo['lmax'][ri]
+                if (ml == 'raise') != (o['lmin'] == 'raise') or (ml != 'raise' and (fr(ml) != fr(o['lmin']) or fr(mx_) != fr(o['lmax']))):
+                    chk.diff('local getMin()/getMax()', dict(case, rank=ri), [ml, mx_], [o['lmin'], o['lmax']])
+            have = [o for o in vals if o['lmin'] != 'raise']
+            gl = [min(o['lmin'] for o in have), max(o['lmax'] for o in have)]
             if gl != [float(np.min(G)), float(np.max(G))]:
                 chk.fail('C17:local-extrema', 'min/max over ranks of getMin()/getMax() differ from the global extrema', case)
         owners = sum(1 for m in mo['min'] if m is not None)
+        if empty:
+            chk.count('minmax with empty blocks')
         chk.count('minmax %s, owners %s' % (kind, 'all' if owners == len(vals) else ('one' if owners == 1 else 'some')))
         chk.case(('minmax', nd, tuple(P), tuple(npts), name, json_key(sel), cplx), nontrivial=max(P) > 1 and owners < len(vals),
                  sample=dict(case, result=[rt['min'], rt['max']]) if it == 3 else None)
